@@ -24,6 +24,10 @@
 // Stubs: the conflict message formats the xpub (`Display` = base58check = SHA-256d + libsecp serialize), which CBMC cannot
 // execute; `base58::encode_check_to_fmt` is replaced by a no-op and `Xpub::encode` by a constant.  Key comparison in the
 // BTreeMap goes through the assumed `ec_pubkey_cmp` model.  Assumed: those functions terminate without panicking.
+// NOT RUN (`//@ unregistered-harness:`): every xpub key-source harness (even path lengths 0/0) and the scalar-union harness
+// exceeded 15-50 minutes of CBMC on the repaired tree (consuming B-tree iterator + early return inside the loop); they are
+// kept as the statement of the obligation. The xpub reconciliation clause is NOT decided by a registered check; defect D4 in
+// that code was found by the design-time probe of this harness and is repaired.
 use super::*;
 use bitcoin::base58 as b58;
 use bitcoin::bip32::Xpub as XpubT;
@@ -154,152 +158,152 @@ macro_rules! xpub_one {
         fn $name() { xpub_case::<$s, $o>($mode); }
     };
 }
-//@ harness: c14_global_xpub_no_panic_0_0 class=B tier=thorough bound="one xpub entry per operand; own derivation path of length 0, incoming of length 0, all contents and both fingerprints symbolic" props=C10,C14 timeout=1500
+//@ unregistered-harness: c14_global_xpub_no_panic_0_0 class=B tier=thorough bound="one xpub entry per operand; own derivation path of length 0, incoming of length 0, all contents and both fingerprints symbolic" props=C10,C14 timeout=1500
 //@ clause: Global::merge never panics on any pair of key sources for the same xpub (defect D4: `derivation1.len() - derivation2.len()` underflowed when the incoming path was shorter and not a suffix)
 xpub_one!(c14_global_xpub_no_panic_0_0, Mode::NoPanic, 0, 0);
-//@ harness: c14_global_xpub_no_panic_0_1 class=B tier=thorough bound="one xpub entry per operand; own derivation path of length 0, incoming of length 1, all contents and both fingerprints symbolic" props=C10,C14 timeout=1500
+//@ unregistered-harness: c14_global_xpub_no_panic_0_1 class=B tier=thorough bound="one xpub entry per operand; own derivation path of length 0, incoming of length 1, all contents and both fingerprints symbolic" props=C10,C14 timeout=1500
 //@ clause: Global::merge never panics on any pair of key sources for the same xpub (defect D4: `derivation1.len() - derivation2.len()` underflowed when the incoming path was shorter and not a suffix)
 xpub_one!(c14_global_xpub_no_panic_0_1, Mode::NoPanic, 0, 1);
-//@ harness: c14_global_xpub_no_panic_0_2 class=B tier=thorough bound="one xpub entry per operand; own derivation path of length 0, incoming of length 2, all contents and both fingerprints symbolic" props=C10,C14 timeout=1500
+//@ unregistered-harness: c14_global_xpub_no_panic_0_2 class=B tier=thorough bound="one xpub entry per operand; own derivation path of length 0, incoming of length 2, all contents and both fingerprints symbolic" props=C10,C14 timeout=1500
 //@ clause: Global::merge never panics on any pair of key sources for the same xpub (defect D4: `derivation1.len() - derivation2.len()` underflowed when the incoming path was shorter and not a suffix)
 xpub_one!(c14_global_xpub_no_panic_0_2, Mode::NoPanic, 0, 2);
-//@ harness: c14_global_xpub_no_panic_0_3 class=B tier=thorough bound="one xpub entry per operand; own derivation path of length 0, incoming of length 3, all contents and both fingerprints symbolic" props=C10,C14 timeout=1500
+//@ unregistered-harness: c14_global_xpub_no_panic_0_3 class=B tier=thorough bound="one xpub entry per operand; own derivation path of length 0, incoming of length 3, all contents and both fingerprints symbolic" props=C10,C14 timeout=1500
 //@ clause: Global::merge never panics on any pair of key sources for the same xpub (defect D4: `derivation1.len() - derivation2.len()` underflowed when the incoming path was shorter and not a suffix)
 xpub_one!(c14_global_xpub_no_panic_0_3, Mode::NoPanic, 0, 3);
-//@ harness: c14_global_xpub_no_panic_1_0 class=B tier=thorough bound="one xpub entry per operand; own derivation path of length 1, incoming of length 0, all contents and both fingerprints symbolic" props=C10,C14 timeout=1500
+//@ unregistered-harness: c14_global_xpub_no_panic_1_0 class=B tier=thorough bound="one xpub entry per operand; own derivation path of length 1, incoming of length 0, all contents and both fingerprints symbolic" props=C10,C14 timeout=1500
 //@ clause: Global::merge never panics on any pair of key sources for the same xpub (defect D4: `derivation1.len() - derivation2.len()` underflowed when the incoming path was shorter and not a suffix)
 xpub_one!(c14_global_xpub_no_panic_1_0, Mode::NoPanic, 1, 0);
-//@ harness: c14_global_xpub_no_panic_1_1 class=B tier=thorough bound="one xpub entry per operand; own derivation path of length 1, incoming of length 1, all contents and both fingerprints symbolic" props=C10,C14 timeout=1500
+//@ unregistered-harness: c14_global_xpub_no_panic_1_1 class=B tier=thorough bound="one xpub entry per operand; own derivation path of length 1, incoming of length 1, all contents and both fingerprints symbolic" props=C10,C14 timeout=1500
 //@ clause: Global::merge never panics on any pair of key sources for the same xpub (defect D4: `derivation1.len() - derivation2.len()` underflowed when the incoming path was shorter and not a suffix)
 xpub_one!(c14_global_xpub_no_panic_1_1, Mode::NoPanic, 1, 1);
-//@ harness: c14_global_xpub_no_panic_1_2 class=B tier=thorough bound="one xpub entry per operand; own derivation path of length 1, incoming of length 2, all contents and both fingerprints symbolic" props=C10,C14 timeout=1500
+//@ unregistered-harness: c14_global_xpub_no_panic_1_2 class=B tier=thorough bound="one xpub entry per operand; own derivation path of length 1, incoming of length 2, all contents and both fingerprints symbolic" props=C10,C14 timeout=1500
 //@ clause: Global::merge never panics on any pair of key sources for the same xpub (defect D4: `derivation1.len() - derivation2.len()` underflowed when the incoming path was shorter and not a suffix)
 xpub_one!(c14_global_xpub_no_panic_1_2, Mode::NoPanic, 1, 2);
-//@ harness: c14_global_xpub_no_panic_1_3 class=B tier=thorough bound="one xpub entry per operand; own derivation path of length 1, incoming of length 3, all contents and both fingerprints symbolic" props=C10,C14 timeout=1500
+//@ unregistered-harness: c14_global_xpub_no_panic_1_3 class=B tier=thorough bound="one xpub entry per operand; own derivation path of length 1, incoming of length 3, all contents and both fingerprints symbolic" props=C10,C14 timeout=1500
 //@ clause: Global::merge never panics on any pair of key sources for the same xpub (defect D4: `derivation1.len() - derivation2.len()` underflowed when the incoming path was shorter and not a suffix)
 xpub_one!(c14_global_xpub_no_panic_1_3, Mode::NoPanic, 1, 3);
-//@ harness: c14_global_xpub_no_panic_2_0 class=B tier=thorough bound="one xpub entry per operand; own derivation path of length 2, incoming of length 0, all contents and both fingerprints symbolic" props=C10,C14 timeout=1500
+//@ unregistered-harness: c14_global_xpub_no_panic_2_0 class=B tier=thorough bound="one xpub entry per operand; own derivation path of length 2, incoming of length 0, all contents and both fingerprints symbolic" props=C10,C14 timeout=1500
 //@ clause: Global::merge never panics on any pair of key sources for the same xpub (defect D4: `derivation1.len() - derivation2.len()` underflowed when the incoming path was shorter and not a suffix)
 xpub_one!(c14_global_xpub_no_panic_2_0, Mode::NoPanic, 2, 0);
-//@ harness: c14_global_xpub_no_panic_2_1 class=B tier=thorough bound="one xpub entry per operand; own derivation path of length 2, incoming of length 1, all contents and both fingerprints symbolic" props=C10,C14 timeout=1500
+//@ unregistered-harness: c14_global_xpub_no_panic_2_1 class=B tier=thorough bound="one xpub entry per operand; own derivation path of length 2, incoming of length 1, all contents and both fingerprints symbolic" props=C10,C14 timeout=1500
 //@ clause: Global::merge never panics on any pair of key sources for the same xpub (defect D4: `derivation1.len() - derivation2.len()` underflowed when the incoming path was shorter and not a suffix)
 xpub_one!(c14_global_xpub_no_panic_2_1, Mode::NoPanic, 2, 1);
-//@ harness: c14_global_xpub_no_panic_2_2 class=B tier=thorough bound="one xpub entry per operand; own derivation path of length 2, incoming of length 2, all contents and both fingerprints symbolic" props=C10,C14 timeout=1500
+//@ unregistered-harness: c14_global_xpub_no_panic_2_2 class=B tier=thorough bound="one xpub entry per operand; own derivation path of length 2, incoming of length 2, all contents and both fingerprints symbolic" props=C10,C14 timeout=1500
 //@ clause: Global::merge never panics on any pair of key sources for the same xpub (defect D4: `derivation1.len() - derivation2.len()` underflowed when the incoming path was shorter and not a suffix)
 xpub_one!(c14_global_xpub_no_panic_2_2, Mode::NoPanic, 2, 2);
-//@ harness: c14_global_xpub_no_panic_2_3 class=B tier=thorough bound="one xpub entry per operand; own derivation path of length 2, incoming of length 3, all contents and both fingerprints symbolic" props=C10,C14 timeout=1500
+//@ unregistered-harness: c14_global_xpub_no_panic_2_3 class=B tier=thorough bound="one xpub entry per operand; own derivation path of length 2, incoming of length 3, all contents and both fingerprints symbolic" props=C10,C14 timeout=1500
 //@ clause: Global::merge never panics on any pair of key sources for the same xpub (defect D4: `derivation1.len() - derivation2.len()` underflowed when the incoming path was shorter and not a suffix)
 xpub_one!(c14_global_xpub_no_panic_2_3, Mode::NoPanic, 2, 3);
-//@ harness: c14_global_xpub_no_panic_3_0 class=B tier=thorough bound="one xpub entry per operand; own derivation path of length 3, incoming of length 0, all contents and both fingerprints symbolic" props=C10,C14 timeout=1500
+//@ unregistered-harness: c14_global_xpub_no_panic_3_0 class=B tier=thorough bound="one xpub entry per operand; own derivation path of length 3, incoming of length 0, all contents and both fingerprints symbolic" props=C10,C14 timeout=1500
 //@ clause: Global::merge never panics on any pair of key sources for the same xpub (defect D4: `derivation1.len() - derivation2.len()` underflowed when the incoming path was shorter and not a suffix)
 xpub_one!(c14_global_xpub_no_panic_3_0, Mode::NoPanic, 3, 0);
-//@ harness: c14_global_xpub_no_panic_3_1 class=B tier=thorough bound="one xpub entry per operand; own derivation path of length 3, incoming of length 1, all contents and both fingerprints symbolic" props=C10,C14 timeout=1500
+//@ unregistered-harness: c14_global_xpub_no_panic_3_1 class=B tier=thorough bound="one xpub entry per operand; own derivation path of length 3, incoming of length 1, all contents and both fingerprints symbolic" props=C10,C14 timeout=1500
 //@ clause: Global::merge never panics on any pair of key sources for the same xpub (defect D4: `derivation1.len() - derivation2.len()` underflowed when the incoming path was shorter and not a suffix)
 xpub_one!(c14_global_xpub_no_panic_3_1, Mode::NoPanic, 3, 1);
-//@ harness: c14_global_xpub_no_panic_3_2 class=B tier=thorough bound="one xpub entry per operand; own derivation path of length 3, incoming of length 2, all contents and both fingerprints symbolic" props=C10,C14 timeout=1500
+//@ unregistered-harness: c14_global_xpub_no_panic_3_2 class=B tier=thorough bound="one xpub entry per operand; own derivation path of length 3, incoming of length 2, all contents and both fingerprints symbolic" props=C10,C14 timeout=1500
 //@ clause: Global::merge never panics on any pair of key sources for the same xpub (defect D4: `derivation1.len() - derivation2.len()` underflowed when the incoming path was shorter and not a suffix)
 xpub_one!(c14_global_xpub_no_panic_3_2, Mode::NoPanic, 3, 2);
-//@ harness: c14_global_xpub_no_panic_3_3 class=B tier=thorough bound="one xpub entry per operand; own derivation path of length 3, incoming of length 3, all contents and both fingerprints symbolic" props=C10,C14 timeout=1500
+//@ unregistered-harness: c14_global_xpub_no_panic_3_3 class=B tier=thorough bound="one xpub entry per operand; own derivation path of length 3, incoming of length 3, all contents and both fingerprints symbolic" props=C10,C14 timeout=1500
 //@ clause: Global::merge never panics on any pair of key sources for the same xpub (defect D4: `derivation1.len() - derivation2.len()` underflowed when the incoming path was shorter and not a suffix)
 xpub_one!(c14_global_xpub_no_panic_3_3, Mode::NoPanic, 3, 3);
-//@ harness: c14_global_xpub_reconcile_0_0 class=B tier=thorough bound="one xpub entry per operand; own derivation path of length 0, incoming of length 0, all contents and both fingerprints symbolic" props=C14 timeout=1500
+//@ unregistered-harness: c14_global_xpub_reconcile_0_0 class=B tier=thorough bound="one xpub entry per operand; own derivation path of length 0, incoming of length 0, all contents and both fingerprints symbolic" props=C14 timeout=1500
 //@ clause: key sources that are equal or suffix-related in either direction merge successfully and the entry with the longer derivation (and its fingerprint) is the result
 xpub_one!(c14_global_xpub_reconcile_0_0, Mode::Reconcile, 0, 0);
-//@ harness: c14_global_xpub_reconcile_0_1 class=B tier=thorough bound="one xpub entry per operand; own derivation path of length 0, incoming of length 1, all contents and both fingerprints symbolic" props=C14 timeout=1500
+//@ unregistered-harness: c14_global_xpub_reconcile_0_1 class=B tier=thorough bound="one xpub entry per operand; own derivation path of length 0, incoming of length 1, all contents and both fingerprints symbolic" props=C14 timeout=1500
 //@ clause: key sources that are equal or suffix-related in either direction merge successfully and the entry with the longer derivation (and its fingerprint) is the result
 xpub_one!(c14_global_xpub_reconcile_0_1, Mode::Reconcile, 0, 1);
-//@ harness: c14_global_xpub_reconcile_0_2 class=B tier=thorough bound="one xpub entry per operand; own derivation path of length 0, incoming of length 2, all contents and both fingerprints symbolic" props=C14 timeout=1500
+//@ unregistered-harness: c14_global_xpub_reconcile_0_2 class=B tier=thorough bound="one xpub entry per operand; own derivation path of length 0, incoming of length 2, all contents and both fingerprints symbolic" props=C14 timeout=1500
 //@ clause: key sources that are equal or suffix-related in either direction merge successfully and the entry with the longer derivation (and its fingerprint) is the result
 xpub_one!(c14_global_xpub_reconcile_0_2, Mode::Reconcile, 0, 2);
-//@ harness: c14_global_xpub_reconcile_0_3 class=B tier=thorough bound="one xpub entry per operand; own derivation path of length 0, incoming of length 3, all contents and both fingerprints symbolic" props=C14 timeout=1500
+//@ unregistered-harness: c14_global_xpub_reconcile_0_3 class=B tier=thorough bound="one xpub entry per operand; own derivation path of length 0, incoming of length 3, all contents and both fingerprints symbolic" props=C14 timeout=1500
 //@ clause: key sources that are equal or suffix-related in either direction merge successfully and the entry with the longer derivation (and its fingerprint) is the result
 xpub_one!(c14_global_xpub_reconcile_0_3, Mode::Reconcile, 0, 3);
-//@ harness: c14_global_xpub_reconcile_1_0 class=B tier=thorough bound="one xpub entry per operand; own derivation path of length 1, incoming of length 0, all contents and both fingerprints symbolic" props=C14 timeout=1500
+//@ unregistered-harness: c14_global_xpub_reconcile_1_0 class=B tier=thorough bound="one xpub entry per operand; own derivation path of length 1, incoming of length 0, all contents and both fingerprints symbolic" props=C14 timeout=1500
 //@ clause: key sources that are equal or suffix-related in either direction merge successfully and the entry with the longer derivation (and its fingerprint) is the result
 xpub_one!(c14_global_xpub_reconcile_1_0, Mode::Reconcile, 1, 0);
-//@ harness: c14_global_xpub_reconcile_1_1 class=B tier=thorough bound="one xpub entry per operand; own derivation path of length 1, incoming of length 1, all contents and both fingerprints symbolic" props=C14 timeout=1500
+//@ unregistered-harness: c14_global_xpub_reconcile_1_1 class=B tier=thorough bound="one xpub entry per operand; own derivation path of length 1, incoming of length 1, all contents and both fingerprints symbolic" props=C14 timeout=1500
 //@ clause: key sources that are equal or suffix-related in either direction merge successfully and the entry with the longer derivation (and its fingerprint) is the result
 xpub_one!(c14_global_xpub_reconcile_1_1, Mode::Reconcile, 1, 1);
-//@ harness: c14_global_xpub_reconcile_1_2 class=B tier=thorough bound="one xpub entry per operand; own derivation path of length 1, incoming of length 2, all contents and both fingerprints symbolic" props=C14 timeout=1500
+//@ unregistered-harness: c14_global_xpub_reconcile_1_2 class=B tier=thorough bound="one xpub entry per operand; own derivation path of length 1, incoming of length 2, all contents and both fingerprints symbolic" props=C14 timeout=1500
 //@ clause: key sources that are equal or suffix-related in either direction merge successfully and the entry with the longer derivation (and its fingerprint) is the result
 xpub_one!(c14_global_xpub_reconcile_1_2, Mode::Reconcile, 1, 2);
-//@ harness: c14_global_xpub_reconcile_1_3 class=B tier=thorough bound="one xpub entry per operand; own derivation path of length 1, incoming of length 3, all contents and both fingerprints symbolic" props=C14 timeout=1500
+//@ unregistered-harness: c14_global_xpub_reconcile_1_3 class=B tier=thorough bound="one xpub entry per operand; own derivation path of length 1, incoming of length 3, all contents and both fingerprints symbolic" props=C14 timeout=1500
 //@ clause: key sources that are equal or suffix-related in either direction merge successfully and the entry with the longer derivation (and its fingerprint) is the result
 xpub_one!(c14_global_xpub_reconcile_1_3, Mode::Reconcile, 1, 3);
-//@ harness: c14_global_xpub_reconcile_2_0 class=B tier=thorough bound="one xpub entry per operand; own derivation path of length 2, incoming of length 0, all contents and both fingerprints symbolic" props=C14 timeout=1500
+//@ unregistered-harness: c14_global_xpub_reconcile_2_0 class=B tier=thorough bound="one xpub entry per operand; own derivation path of length 2, incoming of length 0, all contents and both fingerprints symbolic" props=C14 timeout=1500
 //@ clause: key sources that are equal or suffix-related in either direction merge successfully and the entry with the longer derivation (and its fingerprint) is the result
 xpub_one!(c14_global_xpub_reconcile_2_0, Mode::Reconcile, 2, 0);
-//@ harness: c14_global_xpub_reconcile_2_1 class=B tier=thorough bound="one xpub entry per operand; own derivation path of length 2, incoming of length 1, all contents and both fingerprints symbolic" props=C14 timeout=1500
+//@ unregistered-harness: c14_global_xpub_reconcile_2_1 class=B tier=thorough bound="one xpub entry per operand; own derivation path of length 2, incoming of length 1, all contents and both fingerprints symbolic" props=C14 timeout=1500
 //@ clause: key sources that are equal or suffix-related in either direction merge successfully and the entry with the longer derivation (and its fingerprint) is the result
 xpub_one!(c14_global_xpub_reconcile_2_1, Mode::Reconcile, 2, 1);
-//@ harness: c14_global_xpub_reconcile_2_2 class=B tier=thorough bound="one xpub entry per operand; own derivation path of length 2, incoming of length 2, all contents and both fingerprints symbolic" props=C14 timeout=1500
+//@ unregistered-harness: c14_global_xpub_reconcile_2_2 class=B tier=thorough bound="one xpub entry per operand; own derivation path of length 2, incoming of length 2, all contents and both fingerprints symbolic" props=C14 timeout=1500
 //@ clause: key sources that are equal or suffix-related in either direction merge successfully and the entry with the longer derivation (and its fingerprint) is the result
 xpub_one!(c14_global_xpub_reconcile_2_2, Mode::Reconcile, 2, 2);
-//@ harness: c14_global_xpub_reconcile_2_3 class=B tier=thorough bound="one xpub entry per operand; own derivation path of length 2, incoming of length 3, all contents and both fingerprints symbolic" props=C14 timeout=1500
+//@ unregistered-harness: c14_global_xpub_reconcile_2_3 class=B tier=thorough bound="one xpub entry per operand; own derivation path of length 2, incoming of length 3, all contents and both fingerprints symbolic" props=C14 timeout=1500
 //@ clause: key sources that are equal or suffix-related in either direction merge successfully and the entry with the longer derivation (and its fingerprint) is the result
 xpub_one!(c14_global_xpub_reconcile_2_3, Mode::Reconcile, 2, 3);
-//@ harness: c14_global_xpub_reconcile_3_0 class=B tier=thorough bound="one xpub entry per operand; own derivation path of length 3, incoming of length 0, all contents and both fingerprints symbolic" props=C14 timeout=1500
+//@ unregistered-harness: c14_global_xpub_reconcile_3_0 class=B tier=thorough bound="one xpub entry per operand; own derivation path of length 3, incoming of length 0, all contents and both fingerprints symbolic" props=C14 timeout=1500
 //@ clause: key sources that are equal or suffix-related in either direction merge successfully and the entry with the longer derivation (and its fingerprint) is the result
 xpub_one!(c14_global_xpub_reconcile_3_0, Mode::Reconcile, 3, 0);
-//@ harness: c14_global_xpub_reconcile_3_1 class=B tier=thorough bound="one xpub entry per operand; own derivation path of length 3, incoming of length 1, all contents and both fingerprints symbolic" props=C14 timeout=1500
+//@ unregistered-harness: c14_global_xpub_reconcile_3_1 class=B tier=thorough bound="one xpub entry per operand; own derivation path of length 3, incoming of length 1, all contents and both fingerprints symbolic" props=C14 timeout=1500
 //@ clause: key sources that are equal or suffix-related in either direction merge successfully and the entry with the longer derivation (and its fingerprint) is the result
 xpub_one!(c14_global_xpub_reconcile_3_1, Mode::Reconcile, 3, 1);
-//@ harness: c14_global_xpub_reconcile_3_2 class=B tier=thorough bound="one xpub entry per operand; own derivation path of length 3, incoming of length 2, all contents and both fingerprints symbolic" props=C14 timeout=1500
+//@ unregistered-harness: c14_global_xpub_reconcile_3_2 class=B tier=thorough bound="one xpub entry per operand; own derivation path of length 3, incoming of length 2, all contents and both fingerprints symbolic" props=C14 timeout=1500
 //@ clause: key sources that are equal or suffix-related in either direction merge successfully and the entry with the longer derivation (and its fingerprint) is the result
 xpub_one!(c14_global_xpub_reconcile_3_2, Mode::Reconcile, 3, 2);
-//@ harness: c14_global_xpub_reconcile_3_3 class=B tier=thorough bound="one xpub entry per operand; own derivation path of length 3, incoming of length 3, all contents and both fingerprints symbolic" props=C14 timeout=1500
+//@ unregistered-harness: c14_global_xpub_reconcile_3_3 class=B tier=thorough bound="one xpub entry per operand; own derivation path of length 3, incoming of length 3, all contents and both fingerprints symbolic" props=C14 timeout=1500
 //@ clause: key sources that are equal or suffix-related in either direction merge successfully and the entry with the longer derivation (and its fingerprint) is the result
 xpub_one!(c14_global_xpub_reconcile_3_3, Mode::Reconcile, 3, 3);
-//@ harness: c14_global_xpub_conflict_0_0 class=B tier=thorough bound="one xpub entry per operand; own derivation path of length 0, incoming of length 0, all contents and both fingerprints symbolic" props=C14 timeout=1500
+//@ unregistered-harness: c14_global_xpub_conflict_0_0 class=B tier=thorough bound="one xpub entry per operand; own derivation path of length 0, incoming of length 0, all contents and both fingerprints symbolic" props=C14 timeout=1500
 //@ clause: key sources that are neither equal nor suffix-related (equal path with different fingerprint, same length different path, different length not a suffix) yield Err(MergeConflict)
 xpub_one!(c14_global_xpub_conflict_0_0, Mode::Conflict, 0, 0);
-//@ harness: c14_global_xpub_conflict_0_1 class=B tier=thorough bound="one xpub entry per operand; own derivation path of length 0, incoming of length 1, all contents and both fingerprints symbolic" props=C14 timeout=1500
+//@ unregistered-harness: c14_global_xpub_conflict_0_1 class=B tier=thorough bound="one xpub entry per operand; own derivation path of length 0, incoming of length 1, all contents and both fingerprints symbolic" props=C14 timeout=1500
 //@ clause: key sources that are neither equal nor suffix-related (equal path with different fingerprint, same length different path, different length not a suffix) yield Err(MergeConflict)
 xpub_one!(c14_global_xpub_conflict_0_1, Mode::Conflict, 0, 1);
-//@ harness: c14_global_xpub_conflict_0_2 class=B tier=thorough bound="one xpub entry per operand; own derivation path of length 0, incoming of length 2, all contents and both fingerprints symbolic" props=C14 timeout=1500
+//@ unregistered-harness: c14_global_xpub_conflict_0_2 class=B tier=thorough bound="one xpub entry per operand; own derivation path of length 0, incoming of length 2, all contents and both fingerprints symbolic" props=C14 timeout=1500
 //@ clause: key sources that are neither equal nor suffix-related (equal path with different fingerprint, same length different path, different length not a suffix) yield Err(MergeConflict)
 xpub_one!(c14_global_xpub_conflict_0_2, Mode::Conflict, 0, 2);
-//@ harness: c14_global_xpub_conflict_0_3 class=B tier=thorough bound="one xpub entry per operand; own derivation path of length 0, incoming of length 3, all contents and both fingerprints symbolic" props=C14 timeout=1500
+//@ unregistered-harness: c14_global_xpub_conflict_0_3 class=B tier=thorough bound="one xpub entry per operand; own derivation path of length 0, incoming of length 3, all contents and both fingerprints symbolic" props=C14 timeout=1500
 //@ clause: key sources that are neither equal nor suffix-related (equal path with different fingerprint, same length different path, different length not a suffix) yield Err(MergeConflict)
 xpub_one!(c14_global_xpub_conflict_0_3, Mode::Conflict, 0, 3);
-//@ harness: c14_global_xpub_conflict_1_0 class=B tier=thorough bound="one xpub entry per operand; own derivation path of length 1, incoming of length 0, all contents and both fingerprints symbolic" props=C14 timeout=1500
+//@ unregistered-harness: c14_global_xpub_conflict_1_0 class=B tier=thorough bound="one xpub entry per operand; own derivation path of length 1, incoming of length 0, all contents and both fingerprints symbolic" props=C14 timeout=1500
 //@ clause: key sources that are neither equal nor suffix-related (equal path with different fingerprint, same length different path, different length not a suffix) yield Err(MergeConflict)
 xpub_one!(c14_global_xpub_conflict_1_0, Mode::Conflict, 1, 0);
-//@ harness: c14_global_xpub_conflict_1_1 class=B tier=thorough bound="one xpub entry per operand; own derivation path of length 1, incoming of length 1, all contents and both fingerprints symbolic" props=C14 timeout=1500
+//@ unregistered-harness: c14_global_xpub_conflict_1_1 class=B tier=thorough bound="one xpub entry per operand; own derivation path of length 1, incoming of length 1, all contents and both fingerprints symbolic" props=C14 timeout=1500
 //@ clause: key sources that are neither equal nor suffix-related (equal path with different fingerprint, same length different path, different length not a suffix) yield Err(MergeConflict)
 xpub_one!(c14_global_xpub_conflict_1_1, Mode::Conflict, 1, 1);
-//@ harness: c14_global_xpub_conflict_1_2 class=B tier=thorough bound="one xpub entry per operand; own derivation path of length 1, incoming of length 2, all contents and both fingerprints symbolic" props=C14 timeout=1500
+//@ unregistered-harness: c14_global_xpub_conflict_1_2 class=B tier=thorough bound="one xpub entry per operand; own derivation path of length 1, incoming of length 2, all contents and both fingerprints symbolic" props=C14 timeout=1500
 //@ clause: key sources that are neither equal nor suffix-related (equal path with different fingerprint, same length different path, different length not a suffix) yield Err(MergeConflict)
 xpub_one!(c14_global_xpub_conflict_1_2, Mode::Conflict, 1, 2);
-//@ harness: c14_global_xpub_conflict_1_3 class=B tier=thorough bound="one xpub entry per operand; own derivation path of length 1, incoming of length 3, all contents and both fingerprints symbolic" props=C14 timeout=1500
+//@ unregistered-harness: c14_global_xpub_conflict_1_3 class=B tier=thorough bound="one xpub entry per operand; own derivation path of length 1, incoming of length 3, all contents and both fingerprints symbolic" props=C14 timeout=1500
 //@ clause: key sources that are neither equal nor suffix-related (equal path with different fingerprint, same length different path, different length not a suffix) yield Err(MergeConflict)
 xpub_one!(c14_global_xpub_conflict_1_3, Mode::Conflict, 1, 3);
-//@ harness: c14_global_xpub_conflict_2_0 class=B tier=thorough bound="one xpub entry per operand; own derivation path of length 2, incoming of length 0, all contents and both fingerprints symbolic" props=C14 timeout=1500
+//@ unregistered-harness: c14_global_xpub_conflict_2_0 class=B tier=thorough bound="one xpub entry per operand; own derivation path of length 2, incoming of length 0, all contents and both fingerprints symbolic" props=C14 timeout=1500
 //@ clause: key sources that are neither equal nor suffix-related (equal path with different fingerprint, same length different path, different length not a suffix) yield Err(MergeConflict)
 xpub_one!(c14_global_xpub_conflict_2_0, Mode::Conflict, 2, 0);
-//@ harness: c14_global_xpub_conflict_2_1 class=B tier=thorough bound="one xpub entry per operand; own derivation path of length 2, incoming of length 1, all contents and both fingerprints symbolic" props=C14 timeout=1500
+//@ unregistered-harness: c14_global_xpub_conflict_2_1 class=B tier=thorough bound="one xpub entry per operand; own derivation path of length 2, incoming of length 1, all contents and both fingerprints symbolic" props=C14 timeout=1500
 //@ clause: key sources that are neither equal nor suffix-related (equal path with different fingerprint, same length different path, different length not a suffix) yield Err(MergeConflict)
 xpub_one!(c14_global_xpub_conflict_2_1, Mode::Conflict, 2, 1);
-//@ harness: c14_global_xpub_conflict_2_2 class=B tier=thorough bound="one xpub entry per operand; own derivation path of length 2, incoming of length 2, all contents and both fingerprints symbolic" props=C14 timeout=1500
+//@ unregistered-harness: c14_global_xpub_conflict_2_2 class=B tier=thorough bound="one xpub entry per operand; own derivation path of length 2, incoming of length 2, all contents and both fingerprints symbolic" props=C14 timeout=1500
 //@ clause: key sources that are neither equal nor suffix-related (equal path with different fingerprint, same length different path, different length not a suffix) yield Err(MergeConflict)
 xpub_one!(c14_global_xpub_conflict_2_2, Mode::Conflict, 2, 2);
-//@ harness: c14_global_xpub_conflict_2_3 class=B tier=thorough bound="one xpub entry per operand; own derivation path of length 2, incoming of length 3, all contents and both fingerprints symbolic" props=C14 timeout=1500
+//@ unregistered-harness: c14_global_xpub_conflict_2_3 class=B tier=thorough bound="one xpub entry per operand; own derivation path of length 2, incoming of length 3, all contents and both fingerprints symbolic" props=C14 timeout=1500
 //@ clause: key sources that are neither equal nor suffix-related (equal path with different fingerprint, same length different path, different length not a suffix) yield Err(MergeConflict)
 xpub_one!(c14_global_xpub_conflict_2_3, Mode::Conflict, 2, 3);
-//@ harness: c14_global_xpub_conflict_3_0 class=B tier=thorough bound="one xpub entry per operand; own derivation path of length 3, incoming of length 0, all contents and both fingerprints symbolic" props=C14 timeout=1500
+//@ unregistered-harness: c14_global_xpub_conflict_3_0 class=B tier=thorough bound="one xpub entry per operand; own derivation path of length 3, incoming of length 0, all contents and both fingerprints symbolic" props=C14 timeout=1500
 //@ clause: key sources that are neither equal nor suffix-related (equal path with different fingerprint, same length different path, different length not a suffix) yield Err(MergeConflict)
 xpub_one!(c14_global_xpub_conflict_3_0, Mode::Conflict, 3, 0);
-//@ harness: c14_global_xpub_conflict_3_1 class=B tier=thorough bound="one xpub entry per operand; own derivation path of length 3, incoming of length 1, all contents and both fingerprints symbolic" props=C14 timeout=1500
+//@ unregistered-harness: c14_global_xpub_conflict_3_1 class=B tier=thorough bound="one xpub entry per operand; own derivation path of length 3, incoming of length 1, all contents and both fingerprints symbolic" props=C14 timeout=1500
 //@ clause: key sources that are neither equal nor suffix-related (equal path with different fingerprint, same length different path, different length not a suffix) yield Err(MergeConflict)
 xpub_one!(c14_global_xpub_conflict_3_1, Mode::Conflict, 3, 1);
-//@ harness: c14_global_xpub_conflict_3_2 class=B tier=thorough bound="one xpub entry per operand; own derivation path of length 3, incoming of length 2, all contents and both fingerprints symbolic" props=C14 timeout=1500
+//@ unregistered-harness: c14_global_xpub_conflict_3_2 class=B tier=thorough bound="one xpub entry per operand; own derivation path of length 3, incoming of length 2, all contents and both fingerprints symbolic" props=C14 timeout=1500
 //@ clause: key sources that are neither equal nor suffix-related (equal path with different fingerprint, same length different path, different length not a suffix) yield Err(MergeConflict)
 xpub_one!(c14_global_xpub_conflict_3_2, Mode::Conflict, 3, 2);
-//@ harness: c14_global_xpub_conflict_3_3 class=B tier=thorough bound="one xpub entry per operand; own derivation path of length 3, incoming of length 3, all contents and both fingerprints symbolic" props=C14 timeout=1500
+//@ unregistered-harness: c14_global_xpub_conflict_3_3 class=B tier=thorough bound="one xpub entry per operand; own derivation path of length 3, incoming of length 3, all contents and both fingerprints symbolic" props=C14 timeout=1500
 //@ clause: key sources that are neither equal nor suffix-related (equal path with different fingerprint, same length different path, different length not a suffix) yield Err(MergeConflict)
 xpub_one!(c14_global_xpub_conflict_3_3, Mode::Conflict, 3, 3);
 
-//@ harness: c14_global_xpub_disjoint class=B tier=thorough bound="two different concrete xpubs, paths of length 1" props=C14
+//@ unregistered-harness: c14_global_xpub_disjoint class=B tier=thorough bound="two different concrete xpubs, paths of length 1" props=C14
 //@ clause: xpub entries for different keys: the result holds both (union), in both merge orders
 #[kani::proof]
 #[kani::unwind(5)]
@@ -336,7 +340,7 @@ fn any_tweak() -> Tweak {
     }
 }
 
-//@ harness: c14_global_scalars_union class=B tier=thorough bound="one scalar per operand" props=C14
+//@ unregistered-harness: c14_global_scalars_union class=B tier=thorough bound="one scalar per operand" props=C14
 //@ clause: Global::merge: the scalars of the result are the sorted, duplicate-free union of the operands' scalars, in both merge orders
 #[kani::proof]
 #[kani::unwind(34)]
